@@ -164,6 +164,29 @@ theorem discrete_maximum_principle (V : List Nat) (B : Nat → Prop) (nbr : Nat 
       (hreach m hm hB) hm hB rfl
     exact ⟨b, hb, hBb, by rw [hval]; exact hmax v hv⟩
 
+/-- **Arc-length placement is strictly monotone.**  `CircleBoundary` places boundary vertex `i+1`
+at the angle `2π · tᵢ` with `tᵢ = (l₀+…+lᵢ)/Σl`.  For positive segment lengths the parameters are
+strictly increasing and lie in `(0, 1]`: the boundary vertices go to distinct points that follow each
+other once around the (strictly convex) circle / p-norm circle, i.e. to a convex polygon in the
+order of the boundary cycle. -/
+theorem arc_params_increasing (ls : List K) (hpos : ∀ l ∈ ls, 0 < l) (hne : ls ≠ []) :
+    (arcParams ls).Pairwise (· < ·) ∧ ∀ t ∈ arcParams ls, 0 < t ∧ t ≤ 1 := by
+  have htot : 0 < ls.foldl (· + ·) 0 := by
+    cases ls with
+    | nil => exact absurd rfl hne
+    | cons l r =>
+      have h1 := runSums_gt (l :: r) 0 hpos (0 + l) (by simp [runSums])
+      have h2 := runSums_le_total (l :: r) 0 hpos (0 + l) (by simp [runSums])
+      exact lt_of_lt_of_le h1 h2
+  unfold arcParams
+  simp only
+  constructor
+  · rw [List.pairwise_map]
+    exact (runSums_pairwise ls 0 hpos).imp fun {a b} hab => div_lt_div_of_pos_right hab htot
+  · intro t ht
+    obtain ⟨x, hx, rfl⟩ := List.mem_map.mp ht
+    exact ⟨div_pos (runSums_gt ls 0 hpos x hx) htot, (div_le_one htot).mpr (runSums_le_total ls 0 hpos x hx)⟩
+
 /-! ## The UV validity checker (run in ℚ on the real solver and atlas outputs) -/
 
 /-- **Soundness of `uvValid`.**  If the checker accepts, then either the triangles as given or all
